@@ -51,7 +51,7 @@ def cases(ctx):
                 yield {"k": "script", "hex": wire.detok([a, b]).hex(), "tag": "exh2"}
     if S == 0:
         ctx.exhaustive.append("all scripts of 1 and 2 tokens over a %d-token alphabet (every plain opcode, all 256 one-byte pushes, 2/75/76/255/256-byte pushes)" % len(A))
-    n = 700 if t else 50
+    n = 5000 if t else 50
     for i in range(n):
         depth = r.choice([1, 2, 4, 8, 20, 50])
         pl = [1, 1, 2, 2, 3, 20, 33, 75, 76, 255, 256, 520] + ([65535, 65536, 70000] if r.random() < (0.1 if t else 0.03) else [])
@@ -62,7 +62,7 @@ def cases(ctx):
         yield {"k": "script", "hex": wire.detok(toks).hex(), "tag": "grammar", "ws_seed": r.getrandbits(30)}
     # hand-made text
     names = list(asm.NAME2OP) + list(asm.ALIASES)
-    for i in range(200 if t else 12):
+    for i in range(1500 if t else 12):
         good = [r.choice(names) if r.random() < 0.6 else gen.rbytes(r, r.choice([1, 2, 3, 20, 76])).hex() for _ in range(r.randrange(1, 6))]
         good = [g for g in good if g not in ("OP_IF", "OP_NOTIF", "OP_VERIF", "OP_VERNOTIF", "OP_ELSE", "OP_ENDIF", "OP_PUSHDATA1", "OP_PUSHDATA2", "OP_PUSHDATA4")] or ["OP_1"]
         yield {"k": "text", "text": " ".join(good), "expect": "accept"}
